@@ -238,9 +238,11 @@ def gen_plan(rng, tier="quick", prop="C18"):
             known_shapes.append((recipe["nf"], recipe["nd"]))
 
     add_new(0)
+    need_fresh = [False]
     length = rng.randint(3, 12 if tier == "quick" else 24)
     if prop == "C18":
-        weights = {"call": 7, "bad": 1, "edit": 3.5, "native": 1.5, "new": 1.2, "reader": 1.0, "writer": 0.3, "readfile": 0.3, "construct": 0.6, "reconstruct": 0.25, "readsample": 1.2}
+        weights = {"call": 7, "bad": 1, "edit": 3.5, "native": 1.5, "new": 1.2, "reader": 1.0, "writer": 0.3, "readfile": 0.3, "construct": 0.6, "reconstruct": 0.25, "readsample": 1.2,
+                   "churn": 0.09}
     else:
         weights = {"call": 6, "bad": 1.5, "edit": 0.8, "native": 0.3, "new": 1.0, "reader": 2.0, "writer": 3.0, "readfile": 0.8, "construct": 1.0, "reconstruct": 0.3, "readsample": 0.3}
     for _ in range(length):
@@ -251,6 +253,22 @@ def gen_plan(rng, tier="quick", prop="C18"):
         if kind == "new":
             s = len([m for m in metas]) if len(metas) < nslots else rng.choice(wsl)
             add_new(s)
+        elif kind == "churn":
+            # a long-running process: many short-lived objects on a few spectral grids were built, used and dropped
+            # before; afterwards a new object (same sizes, another grid) is built and observed
+            base = json.loads(json.dumps({k: v for k, v in meta["recipe"].items()}))
+            base["dims"] = [["site", 2]] if rng.random() < 0.3 else []               # keep them small
+            for k in ("site_labels", "scalar_coord", "scalar_lonlat", "time_unit", "time_irregular"):
+                base.pop(k, None)
+            names = [n for n in sorted(O.SIMPLE_STATS) if base.get("nd", 0) > 0 or n not in O.NEEDS_DIR]
+            via_ = rng.choice(["da", "ds"])
+            call = [{"m": n_, "via": via_} for n_ in rng.sample(names, min(2, len(names)))]      # a couple of statistics per object
+            r2 = json.loads(json.dumps(base))
+            r2["freq"] = dict(r2.get("freq", {}), f0=round(float(r2.get("freq", {}).get("f0", 0.04)) * 1.37, 4))
+            r2["data"] = dict(r2["data"], seed=rng.randrange(10**6))
+            steps.append({"op": "churn", "recipe": base, "n": 120, "call": call, "grids": rng.choice([1, 2, 3]),
+                          "observe": r2, "fresh": 200})
+            need_fresh[0] = True
         elif kind == "call":
             st = {"op": "call", "slot": slot, "call": _gen_call(rng, meta), "both": rng.random() < 0.4}
             if meta["backing"] == "dask" and rng.random() < 0.6:
@@ -290,7 +308,9 @@ def gen_plan(rng, tier="quick", prop="C18"):
         elif kind == "reader" and rng.random() < 0.25 and any(m["kind"] == "ds" and any(k == "site" for k, _ in m["recipe"]["dims"]) and m["recipe"]["nd"] >= 2 for m in metas.values()):
             # read_dataset on a dataset that already is in the wavespectra convention
             cands = [s for s, m in metas.items() if m["kind"] == "ds" and any(k == "site" for k, _ in m["recipe"]["dims"]) and m["recipe"]["nd"] >= 2]
-            steps.append({"op": "reader", "slot": rng.choice(cands), "fn": "read_dataset"})
+            # ... or hand it to one of the model converters directly (a second conversion of converted data, or the wrong
+            # converter): whatever they answer or raise, the caller's dataset stays as it was
+            steps.append({"op": "reader", "slot": rng.choice(cands), "fn": rng.choice(["read_dataset", "from", "from"]), "as_fmt": rng.choice(NATIVE_FMTS)})
         elif kind == "reader":
             nat = [s for s, m in metas.items() if m["kind"] == "native"]
             if nat and rng.random() < 0.6:
@@ -315,6 +335,11 @@ def gen_plan(rng, tier="quick", prop="C18"):
             if fmt in ("swan", "swan_gz", "octopus") and rng.random() < 0.4:
                 ns = dict((k, n) for k, n in metas[slot]["recipe"]["dims"]).get("site", 1)
                 st["lonlat_args"] = [[round(150.0 + 0.5 * i, 2) for i in range(ns)], [round(-30.0 + 0.25 * i, 2) for i in range(ns)]]
+                if rng.random() < 0.6:
+                    st["drop_lonlat"] = True
+                    if rng.random() < 0.35:
+                        # a station whose position is not known
+                        st["lonlat_args"][rng.randrange(2)][rng.randrange(ns)] = float("nan")
             if rng.random() < 0.35:
                 # the writers' other options
                 opts = {"swan": [{"id": "verif run"}, {"append": True}, {"compresslevel": 1}], "swan_gz": [{"compresslevel": 1}, {"id": "x"}],
@@ -399,14 +424,20 @@ def gen_plan(rng, tier="quick", prop="C18"):
     wsl = [s for s, m in metas.items() if m["kind"] in ("ds", "da")]
     slot = rng.choice(wsl)
     steps.append({"op": "call", "slot": slot, "call": _gen_call(rng, metas[slot]), "both": True})
-    return {"engine": NAME, "steps": steps, "bufsize": rng.choice([64, 256, 1024, 8192])}
+    plan = {"engine": NAME, "steps": steps, "bufsize": rng.choice([64, 256, 1024, 8192])}
+    if need_fresh[0]:
+        # the outcome may depend on which addresses the allocator reuses: run (and replay) in a newly started interpreter
+        plan["fresh_process"] = True
+    return plan
 
 
 def shape(plan):
     parts = []
     for st in plan["steps"]:
         op = st["op"]
-        if op == "new":
+        if op == "churn":
+            parts.append(f"churn:{st['n']}:{st.get('grids')}:{'+'.join(c['m'] for c in st['call'])}")
+        elif op == "new":
             parts.append(f"new{st['slot']}:{st['kind']}:{st['backing']}{':via-' + st['via'] if st.get('via') else ''}:{D.describe(st['recipe'])}")
         elif op == "call":
             parts.append(f"call{st['slot']}:{O.op_label(st['call'])}:{st['call'].get('via')}{':sim' if st.get('sim') else ''}{':like' + str(st['call'].get('other')) if st['call']['m'] == 'interp_like' else ''}{':asda' if st['call'].get('as_da') else ''}")
@@ -1103,7 +1134,7 @@ def execute(arg):
             op = st["op"]
             sid = st.get("slot")
             sim.count("steps")
-            if op not in ("new", "mknative", "native", "readfile", "construct", "readsample") and sid not in slots:
+            if op not in ("new", "mknative", "native", "readfile", "construct", "readsample", "churn") and sid not in slots:
                 sim.count("steps_skipped")
                 continue
             # make sure argument objects exist before the snapshot (the caller owns them up front)
@@ -1139,6 +1170,69 @@ def execute(arg):
                 continue
             if op == "mknative":
                 slots[sid] = Slot("native", make_native(st["src_recipe"], st["fmt"]), fmt=st["fmt"])
+                continue
+            if op == "churn":
+                batch = []
+                for j in range(st["n"]):
+                    rj = dict(st["recipe"])
+                    rj["data"] = dict(rj["data"], seed=int(rj["data"].get("seed", 0)) + j)
+                    g = j % max(1, st.get("grids", 1))
+                    if g:
+                        rj["freq"] = dict(rj.get("freq", {}), f0=round(float(rj.get("freq", {}).get("f0", 0.04)) * (1.0 + 0.11 * g), 4))
+                    tmp = D.make_dataset(rj)
+                    for c_ in st["call"]:
+                        try:
+                            O.apply_op(tmp, c_)
+                        except Exception:
+                            pass
+                    batch.append(tmp)       # a working set that lives together ...
+                    del tmp
+                del batch                    # ... and is dropped together
+                import gc
+
+                gc.collect()                 # the collector runs here (cyclic GC is off otherwise: *when* it runs is the simulator's call)
+                sim.count("churn_objects", st["n"])
+                state_changes += 1
+                if prop == "C18" and st.get("observe"):
+                    # many fresh objects with one and the same content: each must answer what a pristine process answers
+                    first = D.make_dataset(st["observe"])
+                    reps = []
+                    for c_ in st["call"]:
+                        rep = server.call({"kind": "call", "call": c_, "obj": F.freeze(first), "aux": None})
+                        sim.count("reference_calls")
+                        if "harness" in rep:
+                            raise RuntimeError("reference process failed: " + rep["harness"])
+                        reps.append(rep)
+                    del first
+                    alive = []
+                    found = False
+                    for j in range(st.get("fresh", 40)):
+                        tmp = D.make_dataset(st["observe"])
+                        alive.append(tmp)       # the new working set stays alive, so it spreads over the freed memory
+                        for c_, rep in zip(st["call"], reps):
+                            lab = O.op_label(c_)
+                            try:
+                                mine, mraised = cmp.canon(O.apply_op(tmp, c_)), None
+                            except Exception as exc:
+                                mine, mraised = None, type(exc).__name__
+                            sim.count("churn_observations")
+                            if mraised is not None or "raised" in rep:
+                                if mraised != rep.get("raised"):
+                                    add("C18", "fresh", c_["m"], "after:churn", "exception",
+                                        f"{lab} on fresh object #{j} (after {st['n']} short-lived objects on other grids) {('raises ' + mraised) if mraised else 'returns'}, in a pristine process it "
+                                        f"{('raises ' + rep['raised']) if 'raised' in rep else 'returns'}", i)
+                                    found = True
+                            else:
+                                d = cmp.compare(rep["ok"], mine, rtol=None)
+                                if d:
+                                    add("C18", "fresh", c_["m"], "after:churn", d[0],
+                                        f"{lab} on fresh object #{j} with the same contents as all the others (after {st['n']} short-lived objects on other grids were built, used and dropped) "
+                                        f"differs from a pristine process: {d[1]}", i)
+                                    found = True
+                        del tmp
+                        if found:
+                            break
+                    del alive
                 continue
             sl = slots.get(sid)
             if op == "edit":
@@ -1203,8 +1297,8 @@ def execute(arg):
                 elif op == "reader":
                     if sl.kind not in ("native", "ds"):
                         continue
-                    req = {"kind": "reader", "fmt": sl.fmt, "fn": st["fn"] if sl.kind == "native" else "read_dataset"}
-                    res_c = cmp.canon(call_reader(sl.obj, sl.fmt, req["fn"]))
+                    req = {"kind": "reader", "fmt": sl.fmt if sl.kind == "native" else st.get("as_fmt", "ww3"), "fn": st["fn"]}
+                    res_c = cmp.canon(call_reader(sl.obj, req["fmt"], req["fn"]))
                     sim.count("reader_calls")
                 elif op == "writer":
                     if sl.kind != "ds":
@@ -1212,7 +1306,12 @@ def execute(arg):
                     path = fs.path(st["file"])
                     fs.arm(st.get("fault"))
                     try:
-                        do_write(sl.obj, st["fmt"], path, dict(st.get("kw", {}), **wargs))
+                        wobj = sl.obj
+                        if st.get("drop_lonlat"):
+                            # the dataset carries no positions (a new Dataset object over the same arrays): the writer
+                            # then takes them from the lons= / lats= arguments
+                            wobj = sl.obj.drop_vars([v for v in ("lon", "lat") if v in sl.obj.variables])
+                        do_write(wobj, st["fmt"], path, dict(st.get("kw", {}), **wargs))
                         acked[st["file"]] = st["fmt"]
                         sim.count("writes_acked")
                     finally:
